@@ -17,11 +17,26 @@ constexpr unsigned DEPTH = 3;
 constexpr unsigned LOCS = 1 + 3 + 9 + 27; // all locations of depth 0..3
 constexpr int NONE = 6;                   // "no level" (logging disabled)
 
+// The three names per level. Names are arbitrary strings, so besides the plain set there are sets
+// in which the third name looks like the first two joined by a separator an implementation might
+// use internally ("::" as in location::string(), ": " as in the message prefix, "/", nothing):
+// two different locations must stay different however their names are spelled.
+inline unsigned &name_variant()
+{
+  static unsigned v = 0;
+  return v;
+}
 inline char const *name_of(unsigned k)
 {
-  // one name is longer than the small-string buffer, so copying it really allocates
-  static char const *const n[NAMES] = {"a", "b", "a-rather-long-component-name-beyond-sso"};
-  return n[k % NAMES];
+  // (in every set one name is longer than the small-string buffer, so copying it really allocates)
+  static char const *const n[6][NAMES] = {
+      {"a", "b", "a-rather-long-component-name-beyond-sso"},
+      {"a-rather-long-component-name-beyond-sso", "b", "a-rather-long-component-name-beyond-sso::b"},
+      {"a-rather-long-component-name-beyond-sso", "b", "a-rather-long-component-name-beyond-sso: b"},
+      {"a-rather-long-component-name-beyond-sso", "b", "a-rather-long-component-name-beyond-sso/b"},
+      {"a-rather-long-component-name-beyond-sso", "b", "a-rather-long-component-name-beyond-ssob"},
+      {"a-rather-long-component-name-beyond-sso", "b", "a-rather-long-component-name-beyond-sso.b"}};
+  return n[name_variant() % 6][k % NAMES];
 }
 
 // location index -> path of name indices; 0 is the empty location, then depth 1, 2, 3
